@@ -35,7 +35,7 @@ pub struct C10;
 fn gen_spec(rng: &mut Rng, fam: usize, res: &str, id: String, invalid: bool) -> AnySpec {
     match fam {
         0 => {
-            let mut s = FlowSpec::reject(&id, res, rng.range(1, 6) as f64, *rng.pick(&[0u32, 1000, 2000]));
+            let mut s = FlowSpec::reject(&id, res, rng.range(1, 6) as f64, *rng.pick(&[0u32, 1000, 2000, 0, 1000, 2000, 700, 1300, 1600, 1700, 3100, 3400]));
             if rng.chance(1, 5) {
                 // warm-up rules: period and cold factor take part in enforcement (0 means the default factor 3)
                 s.calc = 1;
@@ -188,6 +188,15 @@ impl Prop for C10 {
                 let mut twin = rng.pick(&pool).clone();
                 twin.set_id(id);
                 pool.push(twin);
+            } else if !pool.is_empty() && rng.chance(1, 6) {
+                // an edited rule that keeps its id: same id and resource, other content
+                let old = rng.pick(&pool).clone();
+                let edited = gen_spec(rng, fam, &old.res(), old.id().to_string(), false);
+                if edited.fingerprint() != old.fingerprint() {
+                    pool.push(edited);
+                } else {
+                    pool.push(gen_spec(rng, fam, r, id, false));
+                }
             } else {
                 let invalid = rng.chance(1, 5);
                 pool.push(gen_spec(rng, fam, r, id, invalid));
@@ -330,7 +339,7 @@ fn set_diff(pool: &[AnySpec], seen: &[Seen], want: &[usize]) -> Option<(bool, St
     // reported rules must all be known pool entries
     let mut seen_idx = vec![];
     for s in seen {
-        match pool.iter().position(|p| p.id() == s.id) {
+        match pool.iter().position(|p| p.id() == s.id && p.fingerprint() == s.debug) {
             Some(i) => seen_idx.push(i),
             None => return Some((true, format!("unknown rule reported: {}", s.debug))),
         }
